@@ -29,6 +29,7 @@ from numpy.fft import fft, ifft, fftshift, ifftshift
 import sklearn.cluster as sk
 from tqdm.auto import tqdm  # progress bar
 import warnings
+import operator
 import matplotlib.pyplot as plt
 
 from .typing import (
@@ -136,7 +137,7 @@ def PRBS(
         23: [23, 18],
         31: [31, 28],
     }
-    seed = seed % (2**order) if seed is not None else (1 << order) - 1
+    seed = operator.index(seed) % (1 << operator.index(order)) if seed is not None else (1 << order) - 1
     if seed == 0:
         seed = 1
         warnings.warn(
